@@ -77,6 +77,7 @@ func main() {
 		"a result that differs from the baseline under every delivery schedule it was run with is reported once with sched=* (the cause is then the consumption mode / buffer / handed-in bufio, not the schedule)",
 		"header long-line sweep: valid reference-written files with one unknown-type stanza whose opening line is 4000..70000 bytes (1, 3 or 7 arguments; first / after the match / last), 300-byte plaintext; sources: every schedule, caller-side bufio.Readers of 16..131072 bytes, *os.File, os.Pipe",
 		"header-size sweep: valid reference-written files with headers of round-d bytes (round = 4096*k, 64 KiB, 1 MiB; 16 MiB in thorough), one large unknown stanza or many ssh-ed25519-looking stanzas, 5000-byte plaintext behind it",
+		"CLI encoding stage: an armored file re-encoded as UTF-16LE+BOM+CRLF, UTF-16BE+BOM, UTF-8+BOM, UTF-32LE+BOM under INPUT path, stdin file, stdin pipe whole and trickled (1, 3, 7 / 101, 1001, 4095, 4097-byte pieces); only independence of the delivery is judged, not acceptance",
 		"CLI damaged-by-route stage: a 3-chunk LF-only text file damaged in its last chunk, ciphertext on a stdin pipe / a redirect / as INPUT, towards a pipe, a pty, -o - on a pty and -o FILE; every route is compared with pipe-to-pipe, retried once, and judged only if the same route delivers the valid file",
 		"CLI streaming stage: header + 2.5 chunks on a stdin pipe that stays open; 64 KiB must reach the pty within 40 s; a pipe destination is the control (expiry there makes the case inconclusive)",
 		"CLI output stage: printable LF-only UTF-8 texts through a pty (CR stripped), -o -, a pipe and -o FILE; a differing route is a violation only if the pipe route and the shifted control succeed, every run is retried once",
@@ -160,6 +161,7 @@ func main() {
 	cliStage(r)
 	cliOutputStage(r)
 	cliDamagedAndStreamingStage(r)
+	cliEncodingStage(r)
 	r.Finish()
 }
 
